@@ -292,6 +292,8 @@ def kinds(sel):
             out.add('comb[%s]' % ('desc' if part == ' ' else part))
         else:
             out.update(SIMPLE[k].kind for k in part)
+    if len(out) > 1:
+        out.discard('universal')  # the neutral element a minimised witness is padded with
     return sorted(out)
 
 
